@@ -178,7 +178,7 @@ pub fn compare(a: &Flat, b: &Flat, sc: &Scale, slack_abs: f64, slack_step: f64) 
             continue;
         }
         rep.compared += 1;
-        let tol = sc.k_long() * ratio_tol(s, den, ra.abs().max(rb.abs()), slack_abs * f);
+        let tol = sc.k_long() * ratio_tol(s, den, ra.abs().max(rb.abs()), 4.0 * slack_abs * f); // 4: bound of a weighted figure, see Cls::W
         if (ra - rb).abs() > tol {
             rep.mismatches.push(format!("{}: {} vs {} (tol {:e})", name, ra, rb, tol));
         }
